@@ -9,18 +9,23 @@
    modules after m can be entered. *)
 From LY Require Import Base DepSet DepSetP.
 
-(* C11_depset_closed: the dependency set computed for a module m (with data nodes or features of its own) contains
-   every module with data nodes or features that is connected to m by a chain of imports, in either direction, through
-   modules the traversal enters; these are the modules whose compiled trees can depend on m (if-feature, leafref,
-   augment, deviation, grouping, typedef chains), so none of them keeps a stale compiled tree when m changes. The
-   hypothesis dep_fuel_out = false excludes the model's out-of-fuel answer (fuel = number of modules + 1 bounds the
-   recursion depth; the answer never occurred in the correspondence runs). *)
-Theorem C11_depset_closed :
+(* C11_depset_exact: the dependency set computed for a module m (with data nodes or features of its own) is EXACTLY the
+   set of modules with data nodes or features that are connected to m by a chain of imports, in either direction,
+   through modules the traversal enters. These are the modules whose compiled trees can depend on m (if-feature,
+   leafref, augment, deviation, grouping, typedef chains): none of them keeps a stale compiled tree when m changes, and
+   nothing else is recompiled. (The fuel of the model, number of modules + 1, always suffices: C11_depset_total.) *)
+Theorem C11_depset_exact :
   forall c m y,
-    m < length c -> is_single (get c m) = false -> dep_fuel_out c m = false ->
-    reach c m y -> is_single (get c y) = false -> In y (dep_set_of c m).
-Proof. exact dep_set_closed. Qed.
-Print Assumptions C11_depset_closed.
+    m < length c -> is_single (get c m) = false ->
+    (In y (dep_set_of c m) <-> reach c m y /\ is_single (get c y) = false).
+Proof. exact dep_set_exact. Qed.
+Print Assumptions C11_depset_exact.
+
+(* every recursive call that goes on adds a module that was not yet entered, so the recursion depth is bounded by the
+   number of modules: the model never answers out-of-fuel *)
+Theorem C11_depset_total : forall c m, dep_fuel_out c m = false.
+Proof. exact dep_fuel_suffices. Qed.
+Print Assumptions C11_depset_total.
 
 (* the hypotheses are satisfiable by the two shapes that were defects of the code:
    (1) a = features + data, c = data, b = nothing but an augment, imports a and c (seeded change C11-4):
